@@ -77,6 +77,7 @@ type ddEngine struct {
 	env      map[ssa.Value]aval
 	stop     func(b *ssa.BasicBlock) bool
 	maxLeafs int
+	maxAtoms int // undetermined conditions per path (default 6)
 	leaves   []ddLeaf
 	err      error
 	// descend into module callees that are pure predicates? if nil, calls are leaves/atoms
@@ -86,6 +87,8 @@ type ddEngine struct {
 	concreteAtoms bool
 	// onCall: called for every call instruction executed on a path, with the state at that point
 	onCall func(s *ddState, c *ssa.Call)
+	// stopInstr: a path ends (as a stop leaf carrying its state) right before the first instruction for which it is true
+	stopInstr func(in ssa.Instruction) bool
 }
 
 // keyOf: the atom key of condition v in state s.
@@ -209,6 +212,9 @@ type ddState struct {
 	atoms map[string]bool
 	atomV map[string]ssa.Value
 	path  []*ssa.BasicBlock
+	// mem: what the last store on this path put into a local variable that is kept in memory (captured by a
+	// closure, a named result of a function that defers); only direct stores to the Alloc are tracked
+	mem map[*ssa.Alloc]aval
 }
 
 func (s *ddState) clone() *ddState {
@@ -223,6 +229,12 @@ func (s *ddState) clone() *ddState {
 		n.atomV[k] = v
 	}
 	n.path = append([]*ssa.BasicBlock{}, s.path...)
+	if s.mem != nil {
+		n.mem = map[*ssa.Alloc]aval{}
+		for k, v := range s.mem {
+			n.mem[k] = v
+		}
+	}
 	return n
 }
 
@@ -358,6 +370,19 @@ func isCmp(op token.Token) bool {
 
 // evalInstr computes the abstract value of a value-producing instruction.
 func (e *ddEngine) evalInstr(s *ddState, in ssa.Instruction, prev *ssa.BasicBlock) {
+	if st, isStore := in.(*ssa.Store); isStore {
+		if al, ok := st.Addr.(*ssa.Alloc); ok {
+			if s.mem == nil {
+				s.mem = map[*ssa.Alloc]aval{}
+			}
+			a := e.value(s, st.Val)
+			if a.k == kSym && a.sym == nil {
+				a.sym = st.Val
+			}
+			s.mem[al] = a
+		}
+		return
+	}
 	v, ok := in.(ssa.Value)
 	if !ok {
 		return
@@ -415,6 +440,12 @@ func (e *ddEngine) evalInstr(s *ddState, in ssa.Instruction, prev *ssa.BasicBloc
 			s.vals[x] = aval{k: kSym, sym: x}
 		}
 	case *ssa.UnOp:
+		if al, isAlloc := x.X.(*ssa.Alloc); isAlloc && x.Op == token.MUL {
+			if a, ok := s.mem[al]; ok {
+				s.vals[x] = a
+				return
+			}
+		}
 		a := e.value(s, x.X)
 		switch {
 		case x.Op == token.NOT && a.k == kBool:
@@ -526,10 +557,14 @@ func (e *ddEngine) walk(s *ddState, b, prev *ssa.BasicBlock, steps int) {
 		steps++
 		s.path = append(s.path, b)
 		if e.stop != nil && e.stop(b) {
-			e.leaves = append(e.leaves, ddLeaf{atoms: s.atoms, atomVal: s.atomV, stop: b, path: s.path})
+			e.leaves = append(e.leaves, ddLeaf{atoms: s.atoms, atomVal: s.atomV, stop: b, path: s.path, st: s})
 			return
 		}
 		for _, in := range b.Instrs {
+			if e.stopInstr != nil && e.stopInstr(in) {
+				e.leaves = append(e.leaves, ddLeaf{atoms: s.atoms, atomVal: s.atomV, stop: b, path: s.path, st: s})
+				return
+			}
 			switch x := in.(type) {
 			case *ssa.Return:
 				var res []aval
@@ -562,7 +597,11 @@ func (e *ddEngine) walk(s *ddState, b, prev *ssa.BasicBlock, steps int) {
 					}
 					break
 				}
-				if len(e.leaves) >= e.maxLeafs || len(s.atoms) >= 6 {
+				maxAtoms := 6
+				if e.maxAtoms > 0 {
+					maxAtoms = e.maxAtoms
+				}
+				if len(e.leaves) >= e.maxLeafs || len(s.atoms) >= maxAtoms {
 					e.err = fmt.Errorf("too many undetermined branch conditions (atom %s)", key)
 					return
 				}
